@@ -286,7 +286,8 @@ def run_default(ctx: C.Ctx):
     # ---- histories over a nested class shared by several roots, Union holders with a Meta of their own, lazily reached holders
     rule = ctx.rule
     c12_hist.run_all(ctx)
-    ctx.rule = rule + ' ' + c12_hist.RULE
+    c12_tag.run_lazy_load(ctx)
+    ctx.rule = rule + ' ' + c12_hist.RULE + ' ' + c12_tag.RULE
 
 
 # --------------------------------------------------------------------------- load-side cascade, judged against a twin class
